@@ -82,7 +82,7 @@ def apply_mutant(copy, m):
         open(p, "w").write(s.replace(ed["old"], ed["new"]))
 
 
-def mutants(props, with_tests=False, only=None):
+def mutants(props, with_tests=False, only=None, save_corpus=False):
     ev_backup = {}
     for prop in ("C14", "C17", "C19"):
         path = os.path.join(K.VERIF, "evidence", f"{prop}.json")
@@ -107,11 +107,23 @@ def mutants(props, with_tests=False, only=None):
                                        cwd=copy, env=dict(os.environ, PYTHONPATH=copy), capture_output=True, text=True, timeout=1800)
                     tests_ok = t.returncode == 0
                 env = dict(SMALL[m["prop"]], NAUNET_REPO=copy)
+                if save_corpus:
+                    env["VERIF_NO_CORPUS"] = "1"
                 env.update(m.get("env", {}))
                 rc, out, err = run_check(m["prop"], env)
                 viol = [ln for ln in out.splitlines() if ln.startswith("VIOLATION")]
                 clauses = [ln for ln in out.splitlines() if ln.startswith("violated clause")]
                 caught = rc == 1 and bool(viol)
+                if caught and save_corpus and "revert" in m["id"]:
+                    # the minimised witness of a repaired defect becomes a regression scenario
+                    paths = [ln.split("replay=", 1)[1].strip() for ln in viol]
+                    paths = [x for x in paths if os.sep + "corpus" + os.sep not in x and os.path.exists(x)][:1]
+                    cdir = os.path.join(K.VERIF, "corpus", m["prop"])
+                    os.makedirs(cdir, exist_ok=True)
+                    for k, x in enumerate(paths):
+                        doc = json.load(open(x))
+                        doc["corpus_origin"] = f"mutant {m['id']}: {m['why']}"
+                        json.dump(doc, open(os.path.join(cdir, f"fixed-{m['id']}-{k}.json"), "w"), indent=1, sort_keys=True)
                 results.append((m["id"], m["prop"], caught, rc, tests_ok, clauses[:2]))
                 print(f"mutant {m['id']:<40} {m['prop']} {'CAUGHT' if caught else 'MISSED'} rc={rc}"
                       + (f" tests={'pass' if tests_ok else 'FAIL'}" if tests_ok is not None else "")
@@ -208,6 +220,6 @@ def main(argv):
         only = None
         if "--only" in argv:
             only = argv[argv.index("--only") + 1].split(",")
-        return mutants(props, with_tests="--with-tests" in argv, only=only)
+        return mutants(props, with_tests="--with-tests" in argv, only=only, save_corpus="--save-corpus" in argv)
     print(__doc__)
     return K.EXIT_HARNESS
